@@ -25,6 +25,9 @@ type HarnessSpec struct {
 	Witnesses []string // Reach labels that must be hit (vacuity guard)
 	Deadline  time.Duration
 	MaxMs     int // solver timeout per query
+
+	ReplayAttempts int
+	TrustRace      bool
 }
 
 type PathResult struct {
